@@ -228,6 +228,14 @@ class Source:
             mm = re.search(r'\b' + kind + r'\s+' + re.escape(name) + r'\b', hdr)
             if mm:
                 return (hs, hs + mm.start(), bo, bc)
+        if kind == 'struct':
+            # tuple struct: `struct Name<..>(..);`
+            mm = re.search(r'\bstruct\s+' + re.escape(name) + r'\b[^;{(]*\(', m)
+            if mm:
+                po = mm.end() - 1
+                pc = match_close(m, po)
+                semi = m.find(';', pc)
+                return (mm.start(), mm.start(), po, semi)
         raise ScanError('%s %s not found in %s' % (kind, name, self.path))
 
     def find_const(self, name):
@@ -294,9 +302,22 @@ class Body:
             kw = mm.group(1)
             i = mm.end()
             if kw == 'for':
-                # must look like `for PAT in`
-                if not re.match(r'\s+[^;{}]*?\sin\s', m[i:i + 200]):
+                # must look like `for PAT in EXPR {`; PAT may itself contain braces (struct patterns)
+                j = i
+                found_in = None
+                while j < len(m) and j < i + 400:
+                    ch = m[j]
+                    if ch in '([{':
+                        j = match_close(m, j)
+                    elif ch in ';}':
+                        break
+                    elif m.startswith('in', j) and m[j - 1].isspace() and j + 2 < len(m) and m[j + 2].isspace():
+                        found_in = j + 2
+                        break
+                    j += 1
+                if found_in is None:
                     continue
+                i = found_in
             # body brace = first '{' at bracket depth 0
             j = i
             brace = None
